@@ -151,15 +151,9 @@ func negate(op token.Token) token.Token {
 func CmpFacts(b *ssa.BasicBlock) []CmpFact {
 	var out []CmpFact
 	for _, f := range core.FactsAt(b) {
-		v, taken := f.Cond, f.Taken
-		for {
-			if u, ok := v.(*ssa.UnOp); ok && u.Op == token.NOT {
-				v, taken = u.X, !taken
-				continue
-			}
-			break
-		}
-		bo, ok := v.(*ssa.BinOp)
+		v, taken := core.NormCond(f.Cond, f.Taken)
+		inner, bind := core.Unbind(v)
+		bo, ok := inner.(*ssa.BinOp)
 		if !ok {
 			continue
 		}
@@ -172,7 +166,11 @@ func CmpFacts(b *ssa.BasicBlock) []CmpFact {
 		if !taken {
 			op = negate(op)
 		}
-		out = append(out, CmpFact{bo.X, bo.Y, op, describe(bo.X), describe(bo.Y)})
+		x, y := bo.X, bo.Y
+		if bind != nil {
+			x, y = core.BindValue(x, bind), core.BindValue(y, bind)
+		}
+		out = append(out, CmpFact{x, y, op, describe(x), describe(y)})
 	}
 	return out
 }
@@ -230,6 +228,97 @@ func methodCalls(fn *ssa.Function, name string) []*ssa.Call {
 	for _, cs := range core.CallsIn(fn, false, core.MethodIs(name)) {
 		if c, ok := cs.Instr.(*ssa.Call); ok {
 			out = append(out, c)
+		}
+	}
+	return out
+}
+
+// GuardFamily returns fn followed by the same-package functions fn delegates part of its
+// verdict to (transitively, to the given depth): a static callee with an error result whose
+// non-nil error makes fn fail (core.ErrLeadsToFailure) and whose call dominates every success
+// exit of fn that does not itself hand the callee's verdict on. A check moved into such a
+// helper is still a check of fn on every accepting path.
+func GuardFamily(fn *ssa.Function, depth int) []*ssa.Function {
+	out := []*ssa.Function{fn}
+	seen := map[*ssa.Function]bool{fn: true}
+	var walk func(f *ssa.Function, d int)
+	walk = func(f *ssa.Function, d int) {
+		if d <= 0 {
+			return
+		}
+		for _, cs := range core.CallsIn(f, false, nil) {
+			call, ok := cs.Instr.(*ssa.Call)
+			if !ok {
+				continue
+			}
+			h := core.StaticCallee(call.Common())
+			if h == nil || seen[h] || h.Pkg != f.Pkg || h.Blocks == nil || core.ErrIndex(h) < 0 {
+				continue
+			}
+			if !core.ErrLeadsToFailure(call) {
+				continue
+			}
+			must := true
+			for _, ret := range core.SuccessExits(f) {
+				if !call.Block().Dominates(ret.Block()) {
+					must = false
+				}
+			}
+			if !must {
+				continue
+			}
+			seen[h] = true
+			out = append(out, h)
+			walk(h, d-1)
+		}
+	}
+	walk(fn, depth)
+	return out
+}
+
+// ViaCredit is a credit as fn sees it: made in fn itself, or in a same-package helper fn
+// calls (whose failure fails fn) — then Added and Addr are the helper's values bound to the
+// arguments of that call (core.Bound), so describe/BaseObject answer in fn's terms.
+type ViaCredit struct {
+	Credit
+	Added, Addr ssa.Value
+	Helper      *ssa.Call // nil when direct
+	ErrOK       bool      // the checked addition's error fails fn
+	Site        ssa.Instruction
+}
+
+// CreditsVia lists the credits to field made by fn directly or through one level of
+// same-package helpers.
+func CreditsVia(fn *ssa.Function, field *types.Var) []ViaCredit {
+	var out []ViaCredit
+	for _, c := range CreditsOf(fn, field) {
+		out = append(out, ViaCredit{Credit: c, Added: c.Added, Addr: c.W.Addr, ErrOK: c.Call != nil && core.ErrLeadsToFailure(c.Call), Site: c.W.Instr})
+	}
+	for _, cs := range core.CallsIn(fn, false, nil) {
+		call, ok := cs.Instr.(*ssa.Call)
+		if !ok {
+			continue
+		}
+		h := core.StaticCallee(call.Common())
+		if h == nil || h == fn || h.Pkg != fn.Pkg || h.Blocks == nil || len(h.Params) != len(call.Call.Args) {
+			continue
+		}
+		hc := CreditsOf(h, field)
+		if len(hc) == 0 {
+			continue
+		}
+		bind := map[*ssa.Parameter]ssa.Value{}
+		for i, prm := range h.Params {
+			bind[prm] = call.Call.Args[i]
+		}
+		herr := core.ErrIndex(h) < 0 || core.ErrLeadsToFailure(call)
+		for _, c := range hc {
+			vc := ViaCredit{Credit: c, Helper: call, Site: call, Addr: core.BindValue(c.W.Addr, bind)}
+			if c.Added != nil {
+				vc.Added = core.BindValue(c.Added, bind)
+			}
+			vc.ErrOK = c.Call != nil && core.ErrLeadsToFailure(c.Call) && herr
+			out = append(out, vc)
 		}
 	}
 	return out
